@@ -806,8 +806,9 @@ func (db *DB) writeToLSM(b *request) error {
 
 	for i, entry := range b.Entries {
 		var err error
-		if entry.skipVlogAndSetThreshold(db.valueThreshold()) {
-			// Will include deletion / tombstone case.
+		if db.opt.InMemory || entry.skipVlogAndSetThreshold(db.valueThreshold()) {
+			// Will include deletion / tombstone case. In InMemory mode there is no value
+			// log (b.Ptrs is empty), so every value is stored inline.
 			err = db.mt.Put(entry.Key,
 				y.ValueStruct{
 					Value: entry.Value,
